@@ -18,7 +18,8 @@ def drive(sc):
   """one scenario on the real loop; returns the trace dict"""
   from harness import c10_loops as L
   from harness import rawbytes as rb
-  side, kind, fault, param, pos, la, plan = sc
+  side, kind, fault, param, pos, la, plan = sc[:7]
+  prev = sc[7] if len(sc) > 7 else None      # kind of the well-formed message right before the faulty one
   Loop = L.ControllerLoop if side == "ctl" else L.SwitchLoop
   fx = L.RAISE_XID if fault == "HANDLER_RAISES" else 10 + pos
   c = L.corrupt(side, kind, fx, fault, param)
@@ -33,9 +34,9 @@ def drive(sc):
       msgs["A"].append(c[0])
       # a HELLO announcing another version is version negotiation, not a malformed message
       cls["A"].append("tolerable" if (kind == "hello" and fault == "BAD_VERSION") else
-                      "short" if c[2] == "short" else CLASS_OF[fault])
+                      "short" if c[2] == "short" else CLASS_OF[fault.split("+")[-1]])
     else:
-      msgs["A"].append(L.good(side, okk[i % 3], 10 + i))
+      msgs["A"].append(L.good(side, prev if (prev and i == pos - 1) else okk[i % 3], 10 + i))
       cls["A"].append("ok")
   msgs["B"] = [L.good(side, "echo", 101), L.good(side, "barrier", 102)]
   cls["B"] = ["ok", "ok"]
@@ -146,6 +147,20 @@ def scenarios(quick, rnd):
               continue
             for plan in ("batch", "single", "split"):
               out.append((side, kind, fault, param, pos, la, plan))
+  # two corrupted fields in one header (version or type, and the length)
+  for side in ("ctl", "sw"):
+    for fault in L.COMPOUND:
+      for kind in L.KINDS[side]:
+        for param in (range(0, 8, 3) if quick else range(16)):
+          for plan in ("batch", "single"):
+            out.append((side, kind, fault, param, 2, 3, plan))
+  # every kind of well-formed message right before a header fault, in the same read and in its own
+  for side in ("ctl", "sw"):
+    for fault in L.HEADER_FAULTS + L.COMPOUND[:2]:
+      for kind in (("echo", "barrier") if quick else L.KINDS[side]):
+        for prev in L.KINDS[side]:
+          for plan in ("batch", "single"):
+            out.append((side, kind, fault, 0 if quick else 1, 2, 3, plan, prev))
   # random mutations of valid messages and fully random byte strings (containment only)
   nfuzz = 40 if quick else 600
   for side in ("ctl", "sw"):
@@ -198,7 +213,7 @@ def run(ctx):
       continue
     tr = traces[t]
     ev = tr["events"][m]
-    side, kind, fault, param, pos, la, plan = tr["scenario"]
+    side, kind, fault, param, pos, la, plan = tr["scenario"][:7]
     sig = dict(side=side, fault=fault, event=ev["e"], conn=ev["c"])
     ctx.report(sig, dict(trace=tr, failing_event=m, note="TLC rejected the recorded outcome at this event"))
   ctx.traces += n
